@@ -85,7 +85,8 @@ Section xor.
       destruct (decide (a = b)) as [->|Hne].
       + replace (1 + occ b l) with (S (occ b l)) by lia. rewrite Nat.odd_succ, <- Nat.negb_odd.
         destruct (Nat.odd (occ b l)) eqn:E; simpl.
-        * split; [intros [[_ Hn]|[_ Hn]]; [apply Hn, IH; reflexivity | contradiction] | discriminate].
+        * split; [|discriminate].
+          intros [[_ Hn]|[_ Hn]]; exfalso; [apply Hn, IH; reflexivity | apply Hn; reflexivity].
         * split; [reflexivity | intros _; left; split; [reflexivity|]].
           intros Hin. apply IH in Hin. discriminate.
       + simpl. rewrite <- IH. split; [intros [[? _]|[? _]]; [contradiction | assumption] | intros ?; right; tauto].
